@@ -91,7 +91,11 @@ func execC16(c Case) string {
 		res := []string{}
 		txTok := func(t *bchutil.Tx) string {
 			h := t.MsgTx().TxHash() // not t.Hash(): that would populate the cache under test
-			return hx(h[:]) + ":" + itoa(t.Index()) + ":" + ids.id(unsafe.Pointer(t))
+			own := ""
+			if i := t.Index(); i < 0 || i >= len(b.MsgBlock().Transactions) || b.MsgBlock().Transactions[i] != t.MsgTx() {
+				own = ":foreign-msgtx" // the wrapper must wrap the block message's own transaction, not a copy
+			}
+			return hx(h[:]) + ":" + itoa(t.Index()) + ":" + ids.id(unsafe.Pointer(t)) + own
 		}
 		for _, call := range splitOr(a[5], ",") {
 			switch call[0] {
